@@ -87,8 +87,7 @@ class Scratch:
                 shutil.copy(os.path.join(src, f), os.path.join(dst, f))
         # reroute syscalls in package nbio
         rw = os.path.join(VERIF, "tools", "bin", "rewriter")
-        if not os.path.exists(rw):
-            build_tools()
+        build_tools()
         files = [os.path.join(nb, f) for f in ("conn_unix.go", "poller_epoll.go", "sendfile_unix.go",
                                                "writev_linux.go", "engine_unix.go", "net_unix.go",
                                                "engine.go", "conn.go")
@@ -124,13 +123,18 @@ class Scratch:
         return os.path.join(self.bin, name)
 
 
-def build_tools():
+def build_tools(force=False):
+    """(Re)build the Go tools whose sources are newer than their binary."""
     out = os.path.join(VERIF, "tools", "bin")
     os.makedirs(out, exist_ok=True)
-    for t in ("rewriter", "csfacts"):
+    for t in sorted(os.listdir(os.path.join(VERIF, "tools"))):
         d = os.path.join(VERIF, "tools", t)
-        if os.path.isdir(d):
-            run(["go", "build", "-o", os.path.join(out, t), "."], cwd=d, env=GOENV, check=True)
+        if t == "bin" or not os.path.isdir(d) or not os.path.exists(os.path.join(d, "go.mod")):
+            continue
+        exe = os.path.join(out, t)
+        srcs = [os.path.join(r, f) for r, _, fs in os.walk(d) for f in fs if f.endswith(".go") or f == "go.mod"]
+        if force or not os.path.exists(exe) or any(os.path.getmtime(x) > os.path.getmtime(exe) for x in srcs):
+            run(["go", "build", "-o", exe, "."], cwd=d, env=GOENV, check=True)
 
 
 # --------------------------------------------------------------------------- Lean side
